@@ -7,7 +7,7 @@ from props._lab import S, Lab, do_op, base_tree
 PROP = "C17"
 LEVEL = "other"
 SELFTEST_PARTS = ("num",)
-WALL_BUDGET = {"quick": 1200, "thorough": 9000}
+WALL_BUDGET = {"quick": 3600, "thorough": 14400}
 
 
 class Env:
